@@ -126,7 +126,25 @@ def call_bool_branch(fn, call_term):
             b = blk.term.j["t"]
             continue
         break
-    raise AnchorError("result of %s in %s is not branched on directly" % (call_term.callee, fn.id))
+    # the result may be bound to a variable and branched on later: accept a unique switch on it (or a copy)
+    aliases = {call_term.dst.local}
+    changed = True
+    while changed:
+        changed = False
+        for s in fn.stmts():
+            if s.rv == "use" and s.dst is not None and not s.dst.proj and s.dst.local not in aliases:
+                q = op_place(s.ops[0])
+                if q is not None and not q.proj and q.local in aliases:
+                    aliases.add(s.dst.local)
+                    changed = True
+    hits = []
+    for blk in fn.blocks:
+        r = bool_switch_targets(fn, blk.i)
+        if r is not None and r[0] in aliases:
+            hits.append(r)
+    if len(hits) == 1:
+        return hits[0][1], hits[0][2]
+    raise AnchorError("result of %s in %s is not branched on (found %d switches)" % (call_term.callee, fn.id, len(hits)))
 
 
 def discr_switches(fn):
